@@ -230,7 +230,7 @@ PROPS = {
         "design_ref": "DESIGN.md §3.3-3.8, §4 C01, Appendix A",
     },
     "C04": {
-        "rules": ["GUARD", "CONDSPEC", "CHECKFORM", "BINDERS", "ALIASCLOSED", "WINCOMPOSE", "ANNOTSYNC", "READKINDS", "ALLOCSIZE", "STAGEGUARD", "ANCESTORFACT", "RENAMEUSES", "FWDTHREAD", "TRAV@C04", "TRAVBASE", "BYPASS"],
+        "rules": ["GUARD", "CONDSPEC", "CHECKFORM", "BINDERS", "ALIASCLOSED", "WINCOMPOSE", "ANNOTSYNC", "READKINDS", "ALLOCSIZE", "STAGEGUARD", "FREEVARS", "ANCESTORFACT", "RENAMEUSES", "FWDTHREAD", "TRAV@C04", "TRAVBASE", "BYPASS"],
         "thorough": [],
         "technique": "static analysis: post-edit Check_Bounds/Check_Aliasing obligations and scope guards from the primitive table (must-analysis), binder-coverage of scope-environment builders, renaming of duplicated code",
         "level_text": "Structural clauses: every shape-changing rewrite (expand/resize/fold/stage) passes its result to Check_Bounds after the last edit; primitives that introduce a call or rewrite "
